@@ -150,9 +150,14 @@ type batch struct {
 // runBatch fans run indices [0,total) out over nproc worker processes
 // (strided), restarting a worker after the run that killed it.
 func runBatch(bin, refBin string, base simapi.Job, total, nproc int, scratch, tag string, perWorkerTimeout time.Duration) *batch {
+	return runBatchRange(bin, refBin, base, 0, total, nproc, scratch, tag, perWorkerTimeout)
+}
+
+// runBatchRange is runBatch over the run indices [lo, total).
+func runBatchRange(bin, refBin string, base simapi.Job, lo, total, nproc int, scratch, tag string, perWorkerTimeout time.Duration) *batch {
 	t0 := time.Now()
-	if nproc > total {
-		nproc = total
+	if nproc > total-lo {
+		nproc = total - lo
 	}
 	if nproc < 1 {
 		nproc = 1
@@ -164,7 +169,7 @@ func runBatch(bin, refBin string, base simapi.Job, total, nproc int, scratch, ta
 		wg.Add(1)
 		go func(k int) {
 			defer wg.Done()
-			from := k
+			from := lo + k
 			refPath := ""
 			if refBin != "" {
 				// reference phase in the plain build: reference diagnostics and
